@@ -234,6 +234,13 @@ impl<T, U> RightUnwrapOr<T, U> for Option<(T, U)> {
 }
 
 /// 总入口
+/// 判断「字符切片」是否以指定字符串开头
+/// * ⚠️[`StartsWithStr::starts_with_str`]在切片比字符串短时只比较已有的字符（截断的关键字也算匹配），
+///   这会让随后的「跳过关键字」越过切片末尾；故先检查长度
+fn char_slice_starts_with(slice: &[char], needle: &str) -> bool {
+    slice.len() >= needle.chars().count() && slice.starts_with_str(needle)
+}
+
 /// * 🚩构造「解析状态」然后转发到「解析状态的实例方法」中去
 pub fn parse(format: &NarseseFormat, input: &str) -> ParseResult {
     // 「理想化」构造解析状态
@@ -774,12 +781,12 @@ impl ParseState<'_> {
         term_begin += term_len;
         loop {
             // 右括弧⇒跳过，结束
-            if env[term_begin..].starts_with_str(right) {
+            if char_slice_starts_with(&env[term_begin..], right) {
                 right_border = term_begin + right.chars().count();
                 break;
             }
             // 分隔符⇒跳过
-            if env[term_begin..].starts_with_str(&self.format.compound.separator) {
+            if char_slice_starts_with(&env[term_begin..], &self.format.compound.separator) {
                 term_begin += self.format.compound.separator.chars().count();
             }
             // 解析一个词项
@@ -826,12 +833,12 @@ impl ParseState<'_> {
         let right_border;
         loop {
             // 右括弧⇒跳过，结束
-            if env[term_begin..].starts_with_str(right) {
+            if char_slice_starts_with(&env[term_begin..], right) {
                 right_border = term_begin + right.chars().count();
                 break;
             }
             // 分隔符⇒跳过
-            if env[term_begin..].starts_with_str(&self.format.compound.separator) {
+            if char_slice_starts_with(&env[term_begin..], &self.format.compound.separator) {
                 term_begin += self.format.compound.separator.chars().count();
             }
             // 解析一个词项
@@ -893,7 +900,7 @@ impl ParseState<'_> {
 
         // 跳过右括弧 //
         let right_bracket_start = predicate_start + relative_len;
-        let right_border = match env[right_bracket_start..].starts_with_str(right) {
+        let right_border = match char_slice_starts_with(&env[right_bracket_start..], right) {
             true => right_bracket_start + right.chars().count(),
             false => return self.err(env, "未匹配到右括弧"),
         };
